@@ -147,6 +147,7 @@ func adversarial() []advCase {
 		add(tp, "lookups-50x50", lookupAliased(50, 50))
 		add(tp, "lookups-70x80", lookupAliased(70, 80))
 	}
+	add("kern.Read", "overlapping-subtables", kernOverlapping(65535))
 	add("gtab.Read/GSUB", "gsub2_1-aliased-sequences-2000", gsub2Aliased(2000))
 	add("gtab.Read/GSUB", "gsub2_1-aliased-sequences-16000", gsub2Aliased(16000))
 	return out
@@ -170,5 +171,16 @@ func extensionTable(which string, broken bool) []byte {
 	b = append(b, 0, 2, 0, 6, 0, 16)
 	b = append(b, 0, 1, 0, 0x10, 0, 1, 0, 10, 0, 3, 0, 1)
 	b = append(b, 0, byte(ext), 0, 0, 0, 2, 0, 10, 0, 18, 0, 1, 0, byte(inner), 0, 0, 0, 16, 0, 1, 0, byte(inner), 0, 0, 0, 8, 0, 1, 0, 0)
+	return b
+}
+
+// kernOverlapping: n subtables of declared length 14 each claiming 65535
+// pairs, so that every subtable re-reads the rest of the table.
+func kernOverlapping(n int) []byte {
+	b := []byte{0, 0, byte(n >> 8), byte(n)}
+	blk := []byte{0, 0, 0, 14, 0, 1, 0xFF, 0xFF, 0, 0, 0, 0, 0, 0}
+	for i := 0; i < n; i++ {
+		b = append(b, blk...)
+	}
 	return b
 }
